@@ -1,5 +1,5 @@
 (* C04 — a batch is flushed only when no task can make progress.
-   Statements only; proofs in proofs/MachineC04.v (built on the C01/C06 invariants).
+   Statements only; proofs in proofs/MachineC04.v, MachineC04B.v, MachineC04S.v (built on the C01/C06 invariants).
    The scheduler machine reaches mode MAfterExec exactly when TaskScheduler._execute has emptied its task
    stack; if the awaited task is then still uncomputed the next step is _continue_with_batch, i.e. a flush.
    Proved for yield-only tree programs (any flush order, any batch kinds, keep_dependencies on or off):
@@ -12,9 +12,31 @@
    Second theorem (proofs/MachineC04B.v): moreover every batch item in S belongs to a batch that is in the
    scheduler's set (TaskScheduler._batches), is not flushed yet and contains the item - the stuck tasks are
    blocked on batch items whose batch is still pending and known to the scheduler.
-   NOT proved (correspondence + monitors in harness/props/c04.py): programs with shared futures (DAGs),
-   synchronous re-entry (.value() inside a task) and the MAX_TASK_STACK_SIZE reset. *)
-From Asynq Require Import Machine Seq proofs.MachineC08 proofs.MachineC01 proofs.MachineC04 proofs.MachineC04B.
+   Tree programs WITH SYNCHRONOUS CALLS (MachineC01S.stree: tree programs plus fn(args) / fn.asynq(args).value()
+   of fresh tasks, nested to any depth; proofs/MachineC04S.v).  A flush point is now the end of an _execute pass
+   of the outermost loop OR of a loop nested below callers that are inside value(): mode MAfterExec over the frame
+   FWait r of the awaited task r, r uncomputed (C04_flush_point_shape_stree).
+   - The statement proved for tree programs is FALSE for stree programs, already for the outermost loop
+     (C04_flush_only_when_stuck_stree_is_false; witness proofs/MachineC04S.c04s_demo, step 50): the flush of a
+     nested loop may complete a batch item on which a task already settled by the OUTER pass waits; that task is
+     runnable when the outer pass ends, yet the outer loop flushes the next batch.
+   - Proved instead, for every pointwise P, every stree program, flush order, batch kinds, keep_dependencies on or
+     off, at every flush point of any nesting depth:
+     C04_flush_only_when_settled_stree: there is a set S containing r, no member of which is on the task stack
+       (none is a suspended caller or a task below one), closed as before - every task in S is uncompleted, has
+       started, has a dependency in S and each dependency computed or in S - whose other members are batch items
+       that MAY ALREADY BE COMPUTED; if all of them are still pending, S is stuck in the full sense (S_ok);
+     C04_flush_only_when_stuck_stree_if_no_stale_item: the full conclusion under a hypothesis on the state at
+       the flush point - no uncompleted task has an already computed batch item among its dependencies;
+     C04_reachable_is_computed_or_settled_stree: every future reachable from r is computed, a pending item, or an
+       uncompleted task that has STARTED, is off the stack, and is blocked or depends on an already computed
+       batch item: no reachable task is unstarted;
+     C04_reachable_is_computed_or_stuck_stree_if_no_stale_item: the tree conclusion under the state hypothesis.
+   NOT proved: for stree programs, that the pending items of S are in scheduled unflushed batches (MachineC04B is
+   for tree programs only); anything for programs with shared futures (DAGs), .value() on futures that are not
+   fresh tasks, and the MAX_TASK_STACK_SIZE reset (correspondence + monitors in harness/props/c04.py). *)
+From Asynq Require Import Machine Seq proofs.MachineC08 proofs.MachineC01 proofs.MachineC01S proofs.MachineC04 proofs.MachineC04B
+     proofs.MachineC04S.
 
 Theorem C04_flush_only_when_stuck_tree : forall P, pointwise P -> forall p, tree p -> forall n,
   let h := fst (create [] (FTask p) (st0 P)) in
@@ -66,3 +88,88 @@ Example C04_hypotheses_are_met :
   c_mode (run P 17 (start h s1)) = MAfterExec /\ computed h (c_st (run P 17 (start h s1))) = false /\
   c_mode (run P 25 (start h s1)) = MAfterExec /\ computed h (c_st (run P 25 (start h s1))) = false.
 Proof. split; [exact c01_demo_tree|]. vm_compute. repeat split. Qed.
+
+(* ---- tree programs with synchronous calls (stree): nested scheduler loops ---- *)
+Theorem C04_flush_point_shape_stree : forall P, pointwise P -> forall p, stree p -> forall n,
+  let h := fst (create [] (FTask p) (st0 P)) in
+  let s1 := snd (create [] (FTask p) (st0 P)) in
+  no_unwind P n (start h s1) -> c_mode (run P n (start h s1)) = MAfterExec ->
+  exists r vs, c_frames (run P n (start h s1)) = FWait r :: vs.
+Proof. exact flush_point_shape_stree. Qed.
+Print Assumptions C04_flush_point_shape_stree.
+
+Theorem C04_flush_only_when_settled_stree : forall P, pointwise P -> forall p, stree p -> forall n r vs,
+  let h := fst (create [] (FTask p) (st0 P)) in
+  let s1 := snd (create [] (FTask p) (st0 P)) in
+  no_unwind P n (start h s1) -> c_mode (run P n (start h s1)) = MAfterExec ->
+  c_frames (run P n (start h s1)) = FWait r :: vs -> computed r (c_st (run P n (start h s1))) = false ->
+  let s := c_st (run P n (start h s1)) in
+  exists S : fid -> Prop, S r /\
+    (forall d, S d ->
+       (exists tk, get d s = Some (mkFut None (KTask tk)) /\ (1 <= tk_iter tk)%Z /\
+                   (exists e, In e (tk_deps tk) /\ S e) /\
+                   (forall e, In e (tk_deps tk) -> computed e s = true \/ S e)) \/
+       (exists o kind idx key a, get d s = Some (mkFut o (KItem kind idx key a)))) /\
+    (forall d, S d -> ~ In d (tasks s)) /\
+    ((forall d o kind idx key a, S d -> get d s = Some (mkFut o (KItem kind idx key a)) -> o = None) ->
+     forall d, S d ->
+       (exists tk, get d s = Some (mkFut None (KTask tk)) /\ (1 <= tk_iter tk)%Z /\
+                   (exists e, In e (tk_deps tk) /\ S e) /\
+                   (forall e, In e (tk_deps tk) -> computed e s = true \/ S e)) \/
+       (exists kind idx key a, get d s = Some (mkFut None (KItem kind idx key a)))).
+Proof. exact flush_only_when_settled_stree. Qed.
+Print Assumptions C04_flush_only_when_settled_stree.
+
+Theorem C04_flush_only_when_stuck_stree_if_no_stale_item : forall P, pointwise P -> forall p, stree p -> forall n r vs,
+  let h := fst (create [] (FTask p) (st0 P)) in
+  let s1 := snd (create [] (FTask p) (st0 P)) in
+  no_unwind P n (start h s1) -> c_mode (run P n (start h s1)) = MAfterExec ->
+  c_frames (run P n (start h s1)) = FWait r :: vs -> computed r (c_st (run P n (start h s1))) = false ->
+  (forall e o kind idx key a, get e (c_st (run P n (start h s1))) = Some (mkFut (Some o) (KItem kind idx key a)) ->
+     forall d tk, get d (c_st (run P n (start h s1))) = Some (mkFut None (KTask tk)) -> ~ In e (tk_deps tk)) ->
+  exists S : fid -> Prop, S r /\ (forall d, S d -> S_ok S (c_st (run P n (start h s1))) d) /\
+    (forall d, S d -> ~ In d (tasks (c_st (run P n (start h s1))))).
+Proof. exact flush_only_when_stuck_stree_if_no_stale_item. Qed.
+Print Assumptions C04_flush_only_when_stuck_stree_if_no_stale_item.
+
+Theorem C04_reachable_is_computed_or_settled_stree : forall P, pointwise P -> forall p, stree p -> forall n r vs,
+  let h := fst (create [] (FTask p) (st0 P)) in
+  let s1 := snd (create [] (FTask p) (st0 P)) in
+  no_unwind P n (start h s1) -> c_mode (run P n (start h s1)) = MAfterExec ->
+  c_frames (run P n (start h s1)) = FWait r :: vs -> computed r (c_st (run P n (start h s1))) = false ->
+  forall d, reach (c_st (run P n (start h s1))) r d ->
+    computed d (c_st (run P n (start h s1))) = true \/
+    (exists kind idx key a, get d (c_st (run P n (start h s1))) = Some (mkFut None (KItem kind idx key a))) \/
+    (exists tk, get d (c_st (run P n (start h s1))) = Some (mkFut None (KTask tk)) /\ (1 <= tk_iter tk)%Z /\
+                ~ In d (tasks (c_st (run P n (start h s1)))) /\
+                (is_blocked tk (c_st (run P n (start h s1))) = true \/
+                 exists e o kind idx key a, In e (tk_deps tk) /\
+                   get e (c_st (run P n (start h s1))) = Some (mkFut (Some o) (KItem kind idx key a)))).
+Proof. exact reachable_is_computed_or_settled_stree. Qed.
+Print Assumptions C04_reachable_is_computed_or_settled_stree.
+
+Theorem C04_reachable_is_computed_or_stuck_stree_if_no_stale_item : forall P, pointwise P -> forall p, stree p -> forall n r vs,
+  let h := fst (create [] (FTask p) (st0 P)) in
+  let s1 := snd (create [] (FTask p) (st0 P)) in
+  no_unwind P n (start h s1) -> c_mode (run P n (start h s1)) = MAfterExec ->
+  c_frames (run P n (start h s1)) = FWait r :: vs -> computed r (c_st (run P n (start h s1))) = false ->
+  (forall e o kind idx key a, get e (c_st (run P n (start h s1))) = Some (mkFut (Some o) (KItem kind idx key a)) ->
+     forall d tk, get d (c_st (run P n (start h s1))) = Some (mkFut None (KTask tk)) -> ~ In e (tk_deps tk)) ->
+  forall d, reach (c_st (run P n (start h s1))) r d ->
+    computed d (c_st (run P n (start h s1))) = true \/
+    (exists kind idx key a, get d (c_st (run P n (start h s1))) = Some (mkFut None (KItem kind idx key a))) \/
+    (exists tk, get d (c_st (run P n (start h s1))) = Some (mkFut None (KTask tk)) /\ (1 <= tk_iter tk)%Z /\
+                is_blocked tk (c_st (run P n (start h s1))) = true).
+Proof. exact reachable_is_computed_or_stuck_stree_if_no_stale_item. Qed.
+Print Assumptions C04_reachable_is_computed_or_stuck_stree_if_no_stale_item.
+
+(* the statement proved for tree programs does NOT extend to stree programs *)
+Theorem C04_flush_only_when_stuck_stree_is_false :
+  ~ (forall P, pointwise P -> forall p, stree p -> forall n,
+       let h := fst (create [] (FTask p) (st0 P)) in
+       let s1 := snd (create [] (FTask p) (st0 P)) in
+       no_unwind P n (start h s1) -> c_mode (run P n (start h s1)) = MAfterExec ->
+       forall r vs, c_frames (run P n (start h s1)) = FWait r :: vs -> computed r (c_st (run P n (start h s1))) = false ->
+       exists S : fid -> Prop, S r /\ forall d, S d -> S_ok S (c_st (run P n (start h s1))) d).
+Proof. exact flush_only_when_stuck_stree_is_false. Qed.
+Print Assumptions C04_flush_only_when_stuck_stree_is_false.
